@@ -140,6 +140,30 @@ async fn run_recv(c: &RecvExempt, rep: &mut CaseReport) -> Option<(String, Strin
     }
     // nothing outstanding any more: the address is treated like any other
     r.expected_responses.write().remove(&known);
+    // ... and like any other that has not sent anything unsolicited yet: what arrived while the node was
+    // waiting was awaited traffic - it is not held against the sender (no quota used up, no ban)
+    if !c.ban_ip && !c.ban_node && c.warmup == 0 {
+        let banned_now = {
+            let l = PERMIT_BAN_LIST.read();
+            l.ban_ips.contains_key(&known.ip()) || l.ban_nodes.contains_key(&node)
+        };
+        if banned_now {
+            return Some((
+                "exemption/awaited-traffic-held-against-the-sender".into(),
+                format!("3 datagrams arrived from {arriving} while an exemption for {known} was present (the node was waiting for them); afterwards the sender is in the ban list although it never sent anything unsolicited (quota 2 per hour)"),
+            ));
+        }
+        let n = send(&mut r, c.kind);
+        settle().await;
+        let out = r.take_delivered();
+        if !handed_on(&out, n) {
+            return Some((
+                "exemption/awaited-traffic-held-against-the-sender".into(),
+                format!("3 awaited datagrams arrived from {arriving}; its FIRST unsolicited datagram afterwards was refused (quota 2 per hour) - the awaited ones were counted against it"),
+            ));
+        }
+        rep.class("receive-task-companion/first-unsolicited-datagram-after-awaited-traffic");
+    }
     if c.ban_ip || (c.ban_node && c.kind % 3 != 2) {
         let n = send(&mut r, c.kind);
         settle().await;
